@@ -239,73 +239,88 @@ func c09Groups(c *enumx.Ctx) {
 	}
 	syscalls := []int{2 /*open*/, 42 /*connect*/, 59 /*execve*/, 39 /*getpid: not normalised*/, 87 /*unlink*/, 45 /*recvfrom*/}
 	var rec func(cur []string, used map[string]bool)
+	// socket addresses of every kind the parser distinguishes: decoded families
+	// (inet, inet6, unix) and families it keeps as raw saddr (netlink, packet, unknown)
+	saddrs := []string{"020001BB0A141E280000000000000000", "0A0001BB00000000FE800000000000000000000000000001" + "00000000", "01002F72756E2F782E736F636B00", "100000000000000000000000", "1100000302000000000000000000000000000000", "2800AABBCCDD"}
 	visit := func(order []string) {
+		hasSock := false
+		for _, n := range order {
+			if n == "SOCKADDR" {
+				hasSock = true
+			}
+		}
 		for _, nr := range syscalls {
 			for _, collide := range []string{"", "pid", "foo"} {
 				for pos := 0; pos <= len(order); pos++ {
-					if !c.Mine() {
-						continue
-					}
-					t := &tagger{}
-					extra := ""
-					if collide == "foo" {
-						extra = "foo"
-					}
-					sc := syscallRec(t, nr, extra)
-					others := otherRecs(t, collide)
-					var recs []recDesc
-					for i, n := range order {
-						if i == pos {
+					for si, sa := range saddrs {
+						if !hasSock && si > 0 {
+							break
+						}
+						if !c.Mine() {
+							continue
+						}
+						t := &tagger{}
+						extra := ""
+						if collide == "foo" {
+							extra = "foo"
+						}
+						sc := syscallRec(t, nr, extra)
+						others := otherRecs(t, collide)
+						others["SOCKADDR"] = recDesc{"SOCKADDR", "saddr=" + sa}
+						var recs []recDesc
+						for i, n := range order {
+							if i == pos {
+								recs = append(recs, sc)
+							}
+							recs = append(recs, others[n])
+						}
+						if pos == len(order) {
 							recs = append(recs, sc)
 						}
-						recs = append(recs, others[n])
-					}
-					if pos == len(order) {
-						recs = append(recs, sc)
-					}
-					for _, eoe := range []bool{false, true} {
-						rs := recs
-						if eoe {
-							rs = append(append([]recDesc{}, recs...), recDesc{"EOE", ""})
+						for _, eoe := range []bool{false, true} {
+							rs := recs
+							if eoe {
+								rs = append(append([]recDesc{}, recs...), recDesc{"EOE", ""})
+							}
+							desc := fmt.Sprintf("group [%s] syscall=%d SYSCALL at %d collide=%q eoe=%v saddr=%s", strings.Join(order, ","), nr, pos, collide, eoe, sa)
+							c.Begin(func() string { return desc })
+							c.Try("C09", func() {
+								msgs, ok := parseAll(c, rs)
+								if !ok {
+									return
+								}
+								ev, err := aucoalesce.CoalesceMessages(msgs)
+								if len(rs) == 1 || (len(rs) >= 1 && err == nil && ev != nil) {
+									// fine
+								}
+								if err != nil || ev == nil {
+									c.Report("C09 coalesce-error", fmt.Sprintf("%s: CoalesceMessages = (%v, %v) for a group with a SYSCALL record", desc, ev, err), nil)
+									return
+								}
+								a := identity(c, "C09", msgs[0], ev, desc)
+								b := containment(c, "C09", rs, ev, desc)
+								// the File block, when present, mirrors ONE of the PATH records consistently
+								if ev.File != nil {
+									mirrored := false
+									for _, m := range msgs {
+										if m.RecordType != auparse.AUDIT_PATH {
+											continue
+										}
+										pd, _ := m.Data()
+										if ev.File.Inode == pd["inode"] && ev.File.Path == pd["name"] && ev.File.Device == pd["rdev"] && ev.File.UID == pd["ouid"] && ev.File.GID == pd["ogid"] {
+											mirrored = true
+										}
+									}
+									if !mirrored {
+										c.Report("C09 file-block-mirror", fmt.Sprintf("%s: File=%+v mirrors none of the event's PATH records", desc, *ev.File), nil)
+										b = false
+									}
+								}
+								if a && b {
+									c.Nontrivial()
+								}
+							})
 						}
-						desc := fmt.Sprintf("group [%s] syscall=%d SYSCALL at %d collide=%q eoe=%v", strings.Join(order, ","), nr, pos, collide, eoe)
-						c.Begin(func() string { return desc })
-						c.Try("C09", func() {
-							msgs, ok := parseAll(c, rs)
-							if !ok {
-								return
-							}
-							ev, err := aucoalesce.CoalesceMessages(msgs)
-							if len(rs) == 1 || (len(rs) >= 1 && err == nil && ev != nil) {
-								// fine
-							}
-							if err != nil || ev == nil {
-								c.Report("C09 coalesce-error", fmt.Sprintf("%s: CoalesceMessages = (%v, %v) for a group with a SYSCALL record", desc, ev, err), nil)
-								return
-							}
-							a := identity(c, "C09", msgs[0], ev, desc)
-							b := containment(c, "C09", rs, ev, desc)
-							// the File block, when present, mirrors ONE of the PATH records consistently
-							if ev.File != nil {
-								mirrored := false
-								for _, m := range msgs {
-									if m.RecordType != auparse.AUDIT_PATH {
-										continue
-									}
-									pd, _ := m.Data()
-									if ev.File.Inode == pd["inode"] && ev.File.Path == pd["name"] && ev.File.Device == pd["rdev"] && ev.File.UID == pd["ouid"] && ev.File.GID == pd["ogid"] {
-										mirrored = true
-									}
-								}
-								if !mirrored {
-									c.Report("C09 file-block-mirror", fmt.Sprintf("%s: File=%+v mirrors none of the event's PATH records", desc, *ev.File), nil)
-									b = false
-								}
-							}
-							if a && b {
-								c.Nontrivial()
-							}
-						})
 					}
 				}
 			}
